@@ -1,3 +1,4 @@
+import CCT.Lemmas.ParseWF
 import CCT.Props.C07
 import CCT.Props.C09
 import CCT.Lemmas.CanonInv3
@@ -100,5 +101,33 @@ theorem reload_trusted_only (C : CryptoFns) (t u : J) (ht : t.WF) (hu : u.WF) : 
   rw [canon_idem t ht] at b
   rw [← b, a]
 
+
+/-! ## values that came from files are well-formed (parser soundness, `Lemmas/ParseWF.lean`) -/
+
+/-- **every value loaded from a strict-UTF-8 file is a well-formed JSON value** — so the well-formedness hypothesis of the theorems of this
+file (and of C04, C07) holds for everything that `load_metadata_from_file` returned for such a file -/
+theorem loaded_is_wf (b : Bytes) (v : J) (hb : NoSurLead b) (h : loadBytes b = some v) : v.WF := load_wf hb h
+
+/-- the files the library writes are ASCII, hence strict UTF-8 -/
+theorem written_is_strict (v : J) (hv : v.WF) : NoSurLead (ser v) :=
+  noSurLead_ascii _ fun b hb => by rcases C07.ser_ascii v hv b hb with h | h <;> omega
+
+/-- **persistence, stated on files**: metadata loaded from any two strict-UTF-8 files, written back by the library and loaded again,
+gets the same verdict from all three verifiers; and the files written are fixed points of load-then-write -/
+theorem file_cycle_preserves_verdicts (C : CryptoFns) (be bt : Bytes) (env trusted : J) (hbe : NoSurLead be) (hbt : NoSurLead bt)
+    (he : loadBytes be = some env) (ht : loadBytes bt = some trusted) :
+    ∃ env' trusted', loadBytes (ser env) = some env' ∧ loadBytes (ser trusted) = some trusted' ∧
+      ser env' = ser env ∧ ser trusted' = ser trusted ∧
+      (∀ keys thr gpg, verifySignableJ C env' keys thr gpg = verifySignableJ C env keys thr gpg) ∧
+      (∀ name gpg, verifyDelegationJ C name env' trusted' gpg = verifyDelegationJ C name env trusted gpg) ∧
+      verifyRootJ C trusted' env' = verifyRootJ C trusted env := by
+  have we := load_wf hbe he
+  have wt := load_wf hbt ht
+  obtain ⟨e', t', h1, h2, h3, h4, h5⟩ := reload_preserves_verdicts C env trusted we wt
+  have c1 := load_write env we
+  have c2 := load_write trusted wt
+  rw [h1] at c1; rw [h2] at c2
+  cases c1; cases c2
+  exact ⟨_, _, h1, h2, ser_canon env we, ser_canon trusted wt, h3, h4, h5⟩
 
 end CCT.C08
